@@ -55,6 +55,8 @@ def build(tier, seed):
             for ql in ((1,) if quick else (0, 1, 2)):
                 if quick:
                     first(tag, spec, k, ql, 2 if k == 3 else 1, n=2)    # full drains of this table: 4-5 min each, thorough
+                elif tag == "TRS":
+                    first(tag, spec, k, ql, 2 if k == 3 else 1, n=3)    # 6 entries: full drains exceed 14 GB
                 else:
                     drain(tag, spec, k, ql, 2 if k == 3 else 1)
     # queries beyond the last index key: the constructor returns NULL / an empty iterator
